@@ -5,7 +5,7 @@
     statement renders the property, and how the model is tied to /repo, is in DESIGN.md. *)
 From CB Require Import ProofLib Spec MonitorSound Results.
 From CB Require Import Inv_combine Inv_share.
-From CB Require Import Chain Programs.
+From CB Require Import Chain Programs Tree TreePrograms.
 
 Theorem C17_map (f : val -> val) p (c : cfg (map_op f)) :
   std p -> reach p g_std c -> no_panic (trace c).
@@ -89,3 +89,32 @@ Proof.
                 (proj2 (@pipeline_protocol it stages b N Hok Hr i n Hn))).
 Qed.
 Print Assumptions C17_pipeline.
+
+(** ** programs: every component of every TREE of from_iter / interval leaves and map / filter / scan /
+    take / skip / merge! / concat! nodes (for_each at roots), wired child to parent port, in every
+    reachable state, whatever the external peers do (composition theorem for trees, Tree.v/TreePrograms.v;
+    combine! is excluded: its broadcast to ended members, KF2, breaks its children's assumptions) *)
+Theorem C17_program (ts : list tnode) (es : list edge) (N : tnet) :
+  Forall tnode_ok ts -> edges_okb es (length ts) = true ->
+  (forall e, In e es -> nth_error ts (e_child e) <> Some TSink) ->
+  tnet_reach (wiring_of es) (prog_net ts) N ->
+  forall i n, nth_error (tnodes N) i = Some n ->
+  no_panic (ntrace n) /\ dead (ncfg n) = false.
+Proof.
+  exact (fun Hok He Hs Hr i n Hn =>
+           conj (pk_c17 (proj1 (@program_protocol ts es N Hok He Hs Hr i n Hn)))
+                (proj2 (@program_protocol ts es N Hok He Hs Hr i n Hn))).
+Qed.
+Print Assumptions C17_program.
+
+(** the premises are satisfiable: concat!(take(1)(from_iter [1;2]), merge!(from_iter [3], map (x10) (from_iter [4])))
+    under a scripted sink runs to completion, every move enabled *)
+Theorem C17_program_example :
+  edges_okb ex_es (length ex_ts) = true /\
+  tnet_all_enabled (wiring_of ex_es) (prog_net ex_ts) ex_nmoves = true /\
+  let N := tnet_run (wiring_of ex_es) (prog_net ex_ts) ex_nmoves in
+  tpend N = PIdle /\ tgst N = [] /\
+  option_map (fun n => (data_out 0 (ntrace n), sk (nms n) 0)) (nth_error (tnodes N) 6)
+  = Some ([VN 1; VN 3; VN 40], SFinished).
+Proof. exact ex_tree_runs. Qed.
+Print Assumptions C17_program_example.
